@@ -17,6 +17,16 @@
 //!   sf:<j>                                set_filter(table entry j) ; result S
 //!   filter index 16 = no set_filter call (the default filter of RpcConn::new) ; mode F = Timeout::Infinite
 //!   a spec may carry three more fields: .<flags>.<l|B>.<destination 0|1>
+//!   a call or signal spec with reply != 0 carries a REPLY_SERIAL header field (it must still be routed by its type)
+//!   ca:<spec>       (only at the start of a line, before `cn`) the scripted bus writes this message right after it
+//!                   has read the client's Hello call, in the order given ; result token + (the filter RpcConn::new installs)
+//!   cn:<s>:<mode>   the client is built by RpcConn::connect_to_path (auth handshake, Hello through send_message,
+//!                   wait_response) against a scripted bus that answers Hello with the `ca` messages; one of them is the
+//!                   reply/error to the Hello call (reply serial <s> = the serial connect_to_path gave Hello) ; result token
+//!                   M<ident of that reply> when connect_to_path returns Ok (it consumes the reply), E.. / T otherwise.
+//!                   A filter index other than 16 is installed after connect_to_path has returned.
+//!   as              alloc_serial ; result S
+//!   sm              send_message(call Out on /out).write_all() ; result S when the peer reads exactly that call
 //! stdout: one token per op, comma separated; after the token, `|` and the errors the peer read
 //! from the socket after that op (`;` separated):
 //!   arrival: + / - (verdict of the installed filter on that message)
@@ -144,6 +154,10 @@ fn build(spec: &str) -> (MarshalledMessage, NonZeroU32) {
             body: MarshalledMessageBody::with_byteorder(bo),
         },
     };
+    if matches!(p[0], "c" | "s") {
+        // a call / signal may carry a REPLY_SERIAL field too (nothing in the wire format forbids it)
+        msg.dynheader.response_serial = reply;
+    }
     msg.dynheader.sender = sender;
     msg.flags = flags;
     if dest {
@@ -194,6 +208,12 @@ fn drain_peer(peer: &mut std::os::unix::net::UnixStream, pending: &mut Vec<u8>) 
             unmarshal::unmarshal_next_message(&h, d, frame.clone(), consumed, vec![])
         });
         match parsed {
+            // a call is what the `sm` operation sent (RpcConn itself only ever sends unknown-method errors)
+            Ok(m) if m.typ == MessageType::Call => out.push(format!(
+                "OUT{}.{}",
+                m.dynheader.serial.map(|s| s.get()).unwrap_or(0),
+                m.dynheader.member.clone().unwrap_or_default()
+            )),
             Ok(m) => out.push(err_canon(&m)),
             Err(e) => out.push(format!("UNPARSABLE{:?}", e).replace([' ', ',', ';', '|'], "_")),
         }
@@ -250,12 +270,163 @@ fn show_msg(r: Result<MarshalledMessage, rustbus::connection::Error>) -> String 
     }
 }
 
-fn run(fidx: u32, ops: &str) -> String {
-    let (conn, mut peer) = match std::panic::catch_unwind(|| rbverif::conn::connect_pair(true)) {
-        Ok(x) => x,
-        Err(_) => return "SETUPFAIL|".to_string(),
+fn read_line(s: &mut std::os::unix::net::UnixStream) -> std::io::Result<Vec<u8>> {
+    let mut line = Vec::new();
+    let mut b = [0u8; 1];
+    loop {
+        if s.read(&mut b)? == 0 {
+            return Err(std::io::ErrorKind::UnexpectedEof.into());
+        }
+        line.push(b[0]);
+        if line.ends_with(b"\r\n") {
+            return Ok(line);
+        }
+    }
+}
+
+/// bytes of the message a spec describes, as the peer writes them; (bytes, first byte of the body, the message as received)
+fn wire_bytes(spec: &str) -> (Vec<u8>, usize, MarshalledMessage) {
+    let (msg, serial) = build(spec);
+    let mut buf = Vec::new();
+    rustbus::wire::marshal::marshal(&msg, serial, &mut buf).unwrap();
+    let body_start = buf.len();
+    buf.extend_from_slice(msg.get_buf());
+    let mut seen = msg;
+    seen.dynheader.serial = Some(serial);
+    (buf, body_start, seen)
+}
+
+/// The scripted bus of the `cn` operation: server side of the auth handshake (as rbverif::conn::connect_pair), then it
+/// reads one message - the client's Hello call - and answers with `script` (whole messages, in order, in one go).
+/// Returns its end of the socket and the serial of the Hello call.
+fn scripted_bus(listener: std::os::unix::net::UnixListener, script: Vec<Vec<u8>>) -> Result<(std::os::unix::net::UnixStream, u32), String> {
+    let io = |e: std::io::Error| format!("io_{:?}", e.kind());
+    let (mut s, _) = listener.accept().map_err(io)?;
+    s.set_read_timeout(Some(std::time::Duration::from_secs(10))).map_err(io)?;
+    let mut z = [0u8; 1];
+    s.read_exact(&mut z).map_err(io)?;
+    let _auth = read_line(&mut s).map_err(io)?;
+    s.write_all(b"OK 1234deadbeef\r\n").map_err(io)?;
+    let _neg = read_line(&mut s).map_err(io)?;
+    s.write_all(b"AGREE_UNIX_FD\r\n").map_err(io)?;
+    let _begin = read_line(&mut s).map_err(io)?;
+    let mut frame = vec![0u8; 16];
+    s.read_exact(&mut frame).map_err(io)?;
+    let le = frame[0] == b'l';
+    let u32at = |f: &[u8], o: usize| -> usize {
+        let b = [f[o], f[o + 1], f[o + 2], f[o + 3]];
+        (if le { u32::from_le_bytes(b) } else { u32::from_be_bytes(b) }) as usize
     };
-    let mut rpc = RpcConn::new(conn);
+    let total = (16 + u32at(&frame, 12) + 7) / 8 * 8 + u32at(&frame, 4);
+    if total > 4096 {
+        return Err("first_message_too_long".to_string());
+    }
+    frame.resize(total, 0);
+    s.read_exact(&mut frame[16..]).map_err(io)?;
+    let mut cursor = Cursor::new(&frame);
+    let hello = unmarshal::unmarshal_header(&mut cursor)
+        .and_then(|h| {
+            let d = unmarshal::unmarshal_dynamic_header(&h, &mut cursor)?;
+            let consumed = cursor.consumed();
+            unmarshal::unmarshal_next_message(&h, d, frame.clone(), consumed, vec![])
+        })
+        .map_err(|e| format!("first_message_unparsable_{:?}", e))?;
+    if hello.typ != MessageType::Call
+        || hello.dynheader.member.as_deref() != Some("Hello")
+        || hello.dynheader.destination.as_deref() != Some("org.freedesktop.DBus")
+    {
+        return Err("first_message_is_not_Hello".to_string());
+    }
+    let serial = hello.dynheader.serial.map(|x| x.get()).unwrap_or(0);
+    for m in script {
+        s.write_all(&m).map_err(io)?;
+    }
+    Ok((s, serial))
+}
+
+/// `cn`: RpcConn::connect_to_path against the scripted bus. Ok: (client, peer, token of the cn operation)
+fn connect_scripted(specs: &[&str], cn: &[&str]) -> Result<(Option<RpcConn>, Option<std::os::unix::net::UnixStream>, String), ()> {
+    static COUNTER: std::sync::atomic::AtomicUsize = std::sync::atomic::AtomicUsize::new(0);
+    let want: u32 = cn.get(1).and_then(|x| x.parse().ok()).unwrap_or(0);
+    let mode = cn.get(2).copied().unwrap_or("I");
+    let path = rbverif::conn::scratch_dir().join(format!("c14cn{}", COUNTER.fetch_add(1, std::sync::atomic::Ordering::SeqCst)));
+    let _ = std::fs::remove_file(&path);
+    let listener = std::os::unix::net::UnixListener::bind(&path).map_err(|_| ())?;
+    let mut script = Vec::new();
+    let mut reply_ident = None;
+    for sp in specs {
+        let (bytes, _, seen) = wire_bytes(sp);
+        if reply_ident.is_none()
+            && matches!(seen.typ, MessageType::Reply | MessageType::Error)
+            && seen.dynheader.response_serial.map(|x| x.get()) == Some(want)
+        {
+            reply_ident = Some(ident(&seen));
+        }
+        script.push(bytes);
+    }
+    let srv = std::thread::spawn(move || scripted_bus(listener, script));
+    let addr = nix::sys::socket::UnixAddr::new(&path).map_err(|_| ())?;
+    let res = RpcConn::connect_to_path(addr, tmo(mode));
+    let _ = std::fs::remove_file(&path);
+    // the bus has written its whole script before connect_to_path can have seen the reply; when connect_to_path
+    // failed early its socket is closed and the script thread ends with an error
+    let bus = srv.join().map_err(|_| ())?;
+    Ok(match (res, bus) {
+        (Ok(rpc), Ok((peer, hello_serial))) => {
+            let tok = if hello_serial != want {
+                format!("Ehello_serial_{}_expected_{}", hello_serial, want)
+            } else {
+                match reply_ident {
+                    Some(id) => format!("M{}", id),
+                    None => "Econnect_returned_without_a_reply_to_Hello".to_string(),
+                }
+            };
+            (Some(rpc), Some(peer), tok)
+        }
+        (Err(e), Ok((peer, _))) => (None, Some(peer), show_err(&e)),
+        (Ok(rpc), Err(b)) => (Some(rpc), None, format!("Ebus_{}", b)),
+        (Err(e), Err(b)) => (None, None, format!("{}_bus_{}", show_err(&e), b).replace("T_bus", "Etimeout_bus")),
+    })
+}
+
+fn run(fidx: u32, ops: &str) -> String {
+    let mut out = Vec::new();
+    let mut unread: std::collections::VecDeque<usize> = std::collections::VecDeque::new();
+    let oplist: Vec<&str> = ops.split(',').filter(|o| !o.is_empty()).collect();
+    let via_connect = oplist.iter().any(|o| o.starts_with("cn:"));
+    let mut skip = 0;
+    let (conn_rpc, mut peer) = if via_connect {
+        // the prologue: `ca`* `cn`
+        let n_ca = oplist.iter().take_while(|o| o.starts_with("ca:")).count();
+        if !oplist.get(n_ca).map(|o| o.starts_with("cn:")).unwrap_or(false) {
+            return "?|".to_string();
+        }
+        let specs: Vec<&str> = oplist[..n_ca].iter().map(|o| &o[3..]).collect();
+        let cn: Vec<&str> = oplist[n_ca].split(':').collect();
+        let (rpc, peer, tok) = match std::panic::catch_unwind(|| connect_scripted(&specs, &cn)) {
+            Ok(Ok(x)) => x,
+            Ok(Err(())) => return "SETUPFAIL|".to_string(),
+            Err(_) => return "PANIC in RpcConn::connect_to_path".to_string(),
+        };
+        for sp in &specs {
+            unread.push_back(wire_bytes(sp).0.len());
+            out.push("+|".to_string());
+        }
+        let hang = tok == "T" && oplist[n_ca].ends_with(":I");
+        out.push(format!("{}|", if hang { "HANG" } else { &tok }));
+        skip = n_ca + 1;
+        match (rpc, peer) {
+            (Some(r), Some(p)) if !hang => (r, p),
+            _ => return out.join(","),
+        }
+    } else {
+        let (conn, peer) = match std::panic::catch_unwind(|| rbverif::conn::connect_pair(true)) {
+            Ok(x) => x,
+            Err(_) => return "SETUPFAIL|".to_string(),
+        };
+        (RpcConn::new(conn), peer)
+    };
+    let mut rpc = conn_rpc;
     // index 16: no set_filter call at all - the filter RpcConn::new installs accepts everything (= table entry 0)
     let mut fidx = fidx;
     if fidx == 16 {
@@ -265,25 +436,15 @@ fn run(fidx: u32, ops: &str) -> String {
     }
     peer.set_nonblocking(true).unwrap();
     let mut pending = Vec::new();
-    let mut out = Vec::new();
     let mut rest: Option<(Vec<u8>, MarshalledMessage, usize)> = None;
-    // lengths of the arrivals written completely and not yet read by the client (oldest first)
-    let mut unread: std::collections::VecDeque<usize> = std::collections::VecDeque::new();
-    for op in ops.split(',') {
-        if op.is_empty() {
-            continue;
-        }
+    // `unread`: lengths of the arrivals written completely and not yet read by the client (oldest first)
+    let mut last_sent: Option<u32> = None;
+    for op in oplist.into_iter().skip(skip) {
         let p: Vec<&str> = op.split(':').collect();
         let tok = match p[0] {
             "a" | "ap" => {
-                let (msg, serial) = build(p[1]);
-                let mut buf = Vec::new();
-                rustbus::wire::marshal::marshal(&msg, serial, &mut buf).unwrap();
-                let body_start = buf.len();
-                buf.extend_from_slice(msg.get_buf());
                 // the filter's verdict on the message as it will be received (serial set)
-                let mut seen = msg;
-                seen.dynheader.serial = Some(serial);
+                let (buf, body_start, seen) = wire_bytes(p[1]);
                 let verdict = if filter_family(fidx, &seen) { "+" } else { "-" };
                 if p[0] == "a" {
                     peer.write_all(&buf).unwrap();
@@ -340,17 +501,43 @@ fn run(fidx: u32, ops: &str) -> String {
                 rpc.set_filter(Box::new(move |m| filter_family(j, m)));
                 "S".to_string()
             }
+            // the two public pass-throughs to SendConn: they must not disturb the queues
+            "as" => {
+                let _ = rpc.alloc_serial();
+                "S".to_string()
+            }
+            "sm" => {
+                let mut call = MessageBuilder::new().call("Out").on("/out").build();
+                let r = match rpc.send_message(&mut call) {
+                    Ok(ctx) => ctx.write_all().map_err(rustbus::connection::ll_conn::force_finish_on_error),
+                    Err(e) => Err(e),
+                };
+                match r {
+                    Ok(serial) => {
+                        last_sent = Some(serial.get());
+                        "S".to_string()
+                    }
+                    Err(e) => format!("Esend_{}", show_err(&e)),
+                }
+            }
             "ra" => match rpc.refill_all() {
                 Ok(v) => format!("R{}", v.iter().map(err_canon).collect::<Vec<_>>().join(";")),
                 Err(e) => show_err(&e),
             },
             _ => "?".to_string(),
         };
-        let sent = drain_peer(&mut peer, &mut pending);
+        let mut sent = drain_peer(&mut peer, &mut pending);
+        let mut tok = tok;
+        // calls the client sent: exactly the one of this `sm` operation
+        let outs: Vec<String> = sent.iter().filter(|x| x.starts_with("OUT")).cloned().collect();
+        sent.retain(|x| !x.starts_with("OUT"));
+        let want_outs: Vec<String> = last_sent.take().map(|n| format!("OUT{}.Out", n)).into_iter().collect();
+        if outs != want_outs {
+            tok = format!("Esent_calls_at_peer_{}_expected_{}", outs.join("+"), want_outs.join("+"));
+        }
         let hang = tok == "T" && op.ends_with(":I");
         // how many whole arrivals this operation took off the socket (FIONREAD counts all queued bytes of a
         // stream socket); reported for the operations with a tiny deadline, whose outcome is not determined
-        let mut tok = tok;
         if rest.is_none() && !matches!(p[0], "a" | "ap" | "af") {
             let mut queued: nix::libc::c_int = 0;
             let fd = std::os::unix::io::AsRawFd::as_raw_fd(rpc.conn());
